@@ -1,6 +1,6 @@
 """C11 - copies and sibling instances share no mutable state."""
 from contracts.c11_copy import CONTRACTS as COPY_CONTRACTS
-from contracts.c16_functions import EvalNamespace
+from contracts.c16_functions import EvalNamespace  # noqa: F401
 from props.containers_bounded import CopyIndependence
 from verif.spec import PropertySpec
 
